@@ -31,7 +31,7 @@ def is_open(cls, tt, v):
 
 
 def is_close(cls, tt, v):
-    return tt is CLOSE[cls][0] and v.upper() == CLOSE[cls][1]
+    return tt is CLOSE[cls][0] and ' '.join(v.upper().split()) == CLOSE[cls][1]
 
 
 def node_spans(root):
@@ -56,15 +56,17 @@ def node_spans(root):
 def gm(kinds: List[int], c: int, pre: int) -> int:
     """
     pre: len(kinds) == NTOK
-    pre: all(0 <= k <= 3 for k in kinds)
+    pre: all(0 <= k <= 4 for k in kinds)
     pre: 0 <= c < 6 and 0 <= pre <= NTOK
     pre: PART < 0 or c == PART
     post: _ != 2
     """
     cls = CLASSES[conc(c, 5)]
     other = sql.Parenthesis if cls is not sql.Parenthesis else sql.SquareBrackets
-    table = [(T.Whitespace, ' '), OPEN[cls], CLOSE[cls], (T.Name, 'x')]
-    toks = [sql.Token(*table[conc(k, 3)]) for k in kinds]
+    # kind 4: the closer written with a line break / tab inside (multi-word closers), else a second name
+    irregular = (CLOSE[cls][0], CLOSE[cls][1].replace(' ', '\n')) if ' ' in CLOSE[cls][1] else (T.Name, 'y')
+    table = [(T.Whitespace, ' '), OPEN[cls], CLOSE[cls], (T.Name, 'x'), irregular]
+    toks = [sql.Token(*table[conc(k, 4)]) for k in kinds]
     # optionally wrap tokens pre-1 .. pre in a group of ANOTHER class (an earlier pass's result)
     pre = conc(pre, NTOK)
     items = list(toks)
@@ -102,7 +104,7 @@ def gm(kinds: List[int], c: int, pre: int) -> int:
 
 
 # ---- end to end ------------------------------------------------------------------------------
-LEX = ['(', ')', 'a[', ']', 'case ', ' end', 'x', ' ', 'if ', ' end if', 'begin ', 'for ', ' end loop', ',', '-- c\n', ';',
+LEX = ['(', ')', 'a[', ']', 'case ', ' end', 'x', ' ', 'if ', ' end if', 'begin ', 'for ', ' end loop', ' end\nif', ' end\tloop', ',', '-- c\n', ';',
        'f(', ' as ', '::', '1', ' then ', ' when ']
 NLEXEME = 8
 NLEX = 3
